@@ -66,12 +66,16 @@ def _child_field_names(cls_name: str) -> list[str] | None:
     return hints.get(cls_name)
 
 
-def check_output(out: dict, skip_class: bool, sort_keys: bool, dialect: str | None, ordered: bool) -> str | None:
+def check_output(out: dict, skip_class: bool, sort_keys: bool, dialect: str | None, ordered: bool, optimized: bool = False) -> str | None:
     from pyoak.serialize import TYPE_KEY
 
     for path, d in _walk(out):
         if d == {} or set(d) == {"idx"}:
             continue
+        if optimized and "source_uri" in d and not (dialect == "test" and d.get("source_uri") == "" and d.get("source_type") == ""):
+            # index-based sources: every source of the call is an index reference (the test
+            # dialect's replacement source aside)
+            return f"source written in full under index-based sources at {path}"
         keys = list(d)
         if skip_class:
             if TYPE_KEY in d:
@@ -109,7 +113,7 @@ def _corrupt(data: Any, how: str, where: int) -> Any:
     return data
 
 
-def make_harness(n_calls: int, first_kind: str, later_kinds: list[str] | None = None, trees: list[int] | None = None):
+def make_harness(n_calls: int, first_kind: str, later_kinds: list[str] | None = None, trees: list[int] | None = None, registry_states: list[str] | None = None):
     def harness(e):
         import msgpack
         import orjson
@@ -126,6 +130,18 @@ def make_harness(n_calls: int, first_kind: str, later_kinds: list[str] | None = 
         clean = {"as_obj": baseline, "from_json": root.to_json(), "from_msgpck": root.to_msgpck(), "from_yaml": root.to_yaml()}
         history: list[str] = []
         scenario: dict[str, Any] = {"tree": describe(TREES[tno]), "calls": history}
+        if registry_states:
+            # sources of the tree that are (no longer) in the source registry when the call is made
+            from pyoak.origin import CodeOrigin, MemoryTextSource, Source, get_code_range
+
+            state = e.pick(registry_states, "source_registry")
+            scenario["source_registry"] = state
+            if state != "all-registered":
+                Source.clear_registry()
+            if state == "cleared-then-new-parent-with-a-registered-source":
+                root = CLASSES["VReq"](child=root, origin=CodeOrigin(MemoryTextSource(_raw="fresh text", source_uri="fresh"), get_code_range(0, 1, 0, 3, 1, 3)))
+                baseline = root.as_dict()
+                clean = {"as_obj": baseline, "from_json": root.to_json(), "from_msgpck": root.to_msgpck(), "from_yaml": root.to_yaml()}
         for step in range(n_calls):
             kind = first_kind if step == 0 else e.pick(later_kinds or (SER + DESER), f"call{step}")
             b_skip, b_sort, b_opt = e.bool(f"skip_class{step}"), e.bool(f"sort_keys{step}"), e.bool(f"optimized_sources{step}")
@@ -180,10 +196,10 @@ def make_harness(n_calls: int, first_kind: str, later_kinds: list[str] | None = 
             vals = {n: (True if b else False) for n, b in (("skip_class", b_skip), ("sort_keys", b_sort), ("optimized", b_opt)) if _decided(e, b)}
             history.append(f"{kind} options={vals} dialect={dialect} -> {'raised ' + raised if raised else 'returned'}")
             if out is not None:
-                err = check_output(out, vals.get("skip_class", False), vals.get("sort_keys", False), dialect, ordered=not kind.startswith("to_yaml"))
+                err = check_output(out, vals.get("skip_class", False), vals.get("sort_keys", False), dialect, ordered=not kind.startswith("to_yaml"), optimized=vals.get("optimized", False))
                 if err:
                     scenario.update(problem=err)
-                    combo = "+".join(sorted(k for k in ("skip_class", "sort_keys") if vals.get(k)) + ([dialect] if dialect else []))
+                    combo = "+".join(sorted(k for k in ("skip_class", "sort_keys") if vals.get(k)) + ([dialect] if dialect else []) + (["optimized_sources"] if "index-based" in err else []))
                     e.fail(f"nested-object-ignores-option:{combo}", scenario=scenario)
             # ---- nothing afterwards
             if not _slots_default():
@@ -246,6 +262,8 @@ def spec(tier: str, seed: int) -> Spec:
     later = ["as_dict"] if tier == "quick" else None
     var = "lazy: SKIP_CLASS, SORT_KEYS, optimized sources per call, fail@k per nested object; selectors: call kinds, dialect, corruption, tree"
     fams = [Family(f"{n}-calls-first-{k}-tree{t}", make_harness(n, k, later, [t]), variables=var) for k in SER + DESER for t in range(len(TREES))]
+    states = ["all-registered", "cleared", "cleared-then-new-parent-with-a-registered-source"]
+    fams += [Family(f"source-registry-state-{k}", make_harness(1, k, None, [0, 3], states), variables=var + "; selector: which of the tree's sources are in the source registry") for k in (SER if tier != "quick" else ["as_dict", "to_json"])]
     fams.append(Family("msgpack-dialect-on-nested-objects", dialect_harness, variables="selectors: nesting depth, tagged / untagged input"))
     return Spec(
         families=fams,
